@@ -781,16 +781,24 @@ int __wrap(pthread_mutex_destroy)(pthread_mutex_t *mutex) {
 static int myth_handle_PTHREAD_MUTEX_INITIALIZER(pthread_mutex_t * pm) {
   myth_mutex_t * m = (myth_mutex_t *)pm;
   volatile int * magic_p = (volatile int *)&m->magic;
+  MYTH_VERIF_POINT(mythv_p_mutex_magic, *magic_p);
   int magic = * magic_p;
   if (magic != myth_mutex_magic_no) {
     if (magic != myth_mutex_magic_no_initializing
 	&& __sync_bool_compare_and_swap(magic_p, magic, myth_mutex_magic_no_initializing)) {
       myth_mutex_t mi = MYTH_MUTEX_INITIALIZER;
       mi.magic = myth_mutex_magic_no_initializing;
+      MYTH_VERIF_POINT(mythv_p_mutex_magic, m->state);
       *m = mi;
       myth_rwbarrier();
+      MYTH_VERIF_POINT(mythv_p_mutex_magic, *magic_p);
       *magic_p = myth_mutex_magic_no;
     } else {
+#ifdef MYTH_VERIF
+      while (*magic_p == myth_mutex_magic_no_initializing) {
+	MYTH_VERIF_SPIN(mythv_p_mutex_magic, *magic_p);
+      }
+#endif
       while (*magic_p == myth_mutex_magic_no_initializing) { }
       myth_assert(*magic_p == myth_mutex_magic_no);
     }
